@@ -364,6 +364,7 @@ impl Engine for Conc {
         let mut next_edge = 100;
         let initial = gen::gen_initial(rng, &mut m, &mut next_edge, if small { 3 } else { 6 });
         let mut cfg = GenCfg {
+            hub: None,
             provs: vec![Prov::Own, Prov::Clone],
             w: [25, 15, 22, 8, 18, 6, 6],
         };
